@@ -47,6 +47,9 @@ pub enum Build {
     /// the guard-off expander with every atomic operation compiled as a call into
     /// shim/atomrt.c: scheduling points at atomic operations for concurrent groups
     Atom,
+    /// guard-off expander built with BOTH back-end features (only exists for trees in which
+    /// that compiles; the pinned tree refuses it with a compile_error!)
+    Both,
 }
 
 impl Backend {
@@ -72,6 +75,7 @@ impl Build {
             Build::Hooked => "hooked",
             Build::PlainB => "plainb",
             Build::Atom => "atom",
+            Build::Both => "both",
         }
     }
     pub fn parse(s: &str) -> Option<Build> {
@@ -80,6 +84,7 @@ impl Build {
             "hooked" => Some(Build::Hooked),
             "plainb" => Some(Build::PlainB),
             "atom" => Some(Build::Atom),
+            "both" => Some(Build::Both),
             _ => None,
         }
     }
@@ -299,7 +304,24 @@ pub struct HarnessError(pub String);
 /// Execute one simulated host: a fresh process with exactly the environment block, clock,
 /// pid, entropy stream, working directory and history given by `cfg`.
 pub fn run_host(env: &Env, backend: Backend, build: Build, texts: &[(u32, String)], cfg: &HostCfg) -> Result<HostLog, HarnessError> {
-    let build = if cfg.alt_build && build == Build::Plain && env.host_bin(backend, Build::PlainB).is_some() { Build::PlainB } else { build };
+    // the alternative build of a host under the second-build fault: the independently built
+    // copy, or -- in a tree where both back-end features can be enabled at once -- the copy built
+    // with both (cargo unifies features: another crate of a build graph may ask for the other
+    // back-end).  Which of the two is a function of the host's configuration.
+    let build = if cfg.alt_build && build == Build::Plain {
+        let both = env.host_bin(backend, Build::Both).is_some();
+        let plainb = env.host_bin(backend, Build::PlainB).is_some();
+        let pick_both = both && (!plainb || (cfg.entropy_seed ^ cfg.pid as u64 ^ cfg.events.len() as u64) & 1 == 1);
+        if pick_both {
+            Build::Both
+        } else if plainb {
+            Build::PlainB
+        } else {
+            build
+        }
+    } else {
+        build
+    };
     let bin = env.host_bin(backend, build).ok_or_else(|| HarnessError(format!("no host binary for {}/{}", backend.tag(), build.tag())))?;
     let mut plan = String::new();
     // only define the inputs this host uses, in id order
